@@ -42,6 +42,8 @@ def main():
     try:
         demos = [f for f in os.listdir(src) if f.endswith("_test.go")]
         mains = [f for f in os.listdir(src) if f.endswith(".go") and not f.endswith("_test.go")]
+        subdirs = [f for f in os.listdir(src) if os.path.isdir(os.path.join(src, f)) and
+                   any(x.endswith(".go") for x in os.listdir(os.path.join(src, f)))]
         pkgs = sorted({os.path.dirname(f) for f in meta.get("files", []) if f.endswith(".go")})
         if demos:
             m = re.search(r"(?:^|\s)(\.?/?[A-Za-z0-9_/.-]+)/%s" % re.escape(demos[0]), meta.get("demo", "").replace(src, ""))
@@ -53,6 +55,10 @@ def main():
             if any("go:build verif" in open(os.path.join(src, d)).read() for d in demos):
                 tags = "-tags verif "   # the demonstration forces an interleaving through the inert verif yield points
             democmd = "go test -vet=off -count=1 %s-run 'Demo|demo' ./%s/" % (tags, target)
+        elif subdirs:
+            # a demonstration program in its own directory (the directory name may matter, e.g. as log origin)
+            shutil.copytree(os.path.join(src, subdirs[0]), os.path.join(wt, subdirs[0]))
+            democmd = "go run ./%s" % subdirs[0]
         elif mains:
             os.makedirs(os.path.join(wt, "zz_demo"), exist_ok=True)
             for d in mains:
@@ -111,6 +117,8 @@ def main():
         for d in demos:
             os.remove(os.path.join(wt, target, d))
         shutil.rmtree(os.path.join(wt, "zz_demo"), ignore_errors=True)
+        for sd in subdirs:
+            shutil.rmtree(os.path.join(wt, sd), ignore_errors=True)
         det = {}
         for c in checks:
             env = dict(ENV, VERIF_REPO=wt)
@@ -127,6 +135,8 @@ def main():
     for f in os.listdir(src):
         if os.path.isfile(os.path.join(src, f)) and f != "meta.json":
             shutil.copy(os.path.join(src, f), dst)
+        elif os.path.isdir(os.path.join(src, f)) and f in subdirs:
+            shutil.copytree(os.path.join(src, f), os.path.join(dst, f), dirs_exist_ok=True)
     meta["confirmed_by_main"] = res
     meta["breaks_property"] = prop
     json.dump(meta, open(os.path.join(dst, "meta.json"), "w"), indent=1)
